@@ -201,7 +201,11 @@ func (r *runner) open() *viol {
 		return &viol{Oracle: "panic", What: fmt.Sprintf("opening the node: panic: %v", pan)}
 	}
 	if err != nil {
-		return &viol{Oracle: "restart-failed:" + reason(err.Error()), What: "new Blockchain on the node's database failed: " + cleanErr(err.Error())}
+		or := "restart-failed:" + reason(err.Error())
+		if g := r.c.src.lite[0]["hash"]; strings.Contains(err.Error(), "could not get header "+g) {
+			or = "restart-failed:genesis-header-missing"
+		}
+		return &viol{Oracle: or, What: "new Blockchain on the node's database failed: " + cleanErr(err.Error())}
 	}
 	r.n = n
 	r.m = n.BC.GetStateSyncModule()
@@ -378,7 +382,15 @@ func (r *runner) succ(used int) (def *Ev, alts []altT, v *viol) {
 		}
 		def = &Ev{K: "hdr", N: int(tip - hh)}
 		for k := 1; k < int(tip-hh); k++ {
-			alts = append(alts, altT{Ev{K: "hdr", N: k}, 1})
+			// Every split of the headers below the sync point is free on a trace
+			// without other deviations (all compositions, with dedupe on the
+			// header height); a batch that crosses P but stops short of the tip
+			// is a deviation (the trie stage then starts on another header height).
+			cost := 1
+			if used == 0 && hh+uint32(k) <= m.GetStateSyncPoint() {
+				cost = 0
+			}
+			alts = append(alts, altT{Ev{K: "hdr", N: k}, cost})
 		}
 		if hh >= 1 {
 			alts = append(alts, altT{Ev{K: "hdr", N: int(tip - hh), H: "ov"}, 1})
@@ -471,11 +483,6 @@ func (r *runner) succ(used int) (def *Ev, alts []altT, v *viol) {
 	if pr.RestartTip && c.HInit != tip {
 		alts = append(alts, altT{Ev{K: "restart", H: "tip"}, 1})
 	}
-	// crash: the database keeps the batches issued before the last event plus
-	// the first N batches of that event (N = all of them: the memory layer is lost).
-	for i := 1; i <= r.postLog-r.prevLog; i++ {
-		alts = append(alts, altT{Ev{K: "crash", N: i}, 1})
-	}
 	return def, alts, nil
 }
 
@@ -507,6 +514,19 @@ func rewireBlock(b *block.Block) *block.Block {
 		panic(err)
 	}
 	return n
+}
+
+// crashAlts are the crash points of the transition that led to the current
+// state: the database keeps the batches issued before the last event plus the
+// first N batches of that event (N = all of them: only the memory layer is
+// lost). They belong to the transition, not to the state, so they are forked
+// even when the state itself was expanded before.
+func (r *runner) crashAlts() []altT {
+	var alts []altT
+	for i := 1; i <= r.postLog-r.prevLog; i++ {
+		alts = append(alts, altT{Ev{K: "crash", N: i}, 1})
+	}
+	return alts
 }
 
 func corrupt(b []byte, pos int) []byte {
@@ -747,7 +767,13 @@ func (r *runner) invariants() *viol {
 	_, pan := guard(func() error {
 		m, bc := r.m, r.n.BC
 		if !m.IsActive() && bc.BlockHeight() < r.c.P {
-			v = &viol{Oracle: "inactive-without-jump", What: fmt.Sprintf("the module reports the state sync as finished/unnecessary (stage getters %s, sync point %d) but the ledger is at height %d, below the sync point %d", r.stage(), m.GetStateSyncPoint(), bc.BlockHeight(), r.c.P)}
+			how := "start"
+			for _, e := range r.tr {
+				if !e.P && (e.K == "restart" || e.K == "crash") {
+					how = e.K
+				}
+			}
+			v = &viol{Oracle: "inactive-without-jump:after-" + how, What: fmt.Sprintf("the module reports the state sync as finished/unnecessary (stage getters %s, sync point %d) but the ledger is at height %d, below the sync point %d", r.stage(), m.GetStateSyncPoint(), bc.BlockHeight(), r.c.P)}
 		}
 		if bc.HeaderHeight() < bc.BlockHeight() {
 			v = &viol{Oracle: "header-below-block", What: fmt.Sprintf("header height %d < block height %d", bc.HeaderHeight(), bc.BlockHeight())}
